@@ -8,6 +8,8 @@ pub mod termination;
 pub mod tls;
 mod traversal;
 pub mod tx;
+#[cfg(genmeta_gm_quic_verif)]
+pub mod verif;
 pub mod prelude {
     pub use qbase::{
         cid::ConnectionId,
